@@ -153,6 +153,8 @@ Repl(s) ==
     [] OTHER -> {}
 \* all single-field mutants of a frame (same size; the header is left as it was)
 MutantsAt(segs, i) == {[segs EXCEPT ![i].b = nb] : nb \in Repl(segs[i]) \ {segs[i].b}}
-\* nesting deepened: the type id at segment i is preceded by n list type ids (frame length recomputed)
-Deepen(segs, i, n) == Reframe(SubSeq(segs, 1, i - 1) \o Seg("raw", 0, [j \in 1..(2 * n) |-> IF j % 2 = 1 THEN 0 ELSE 32]) \o SubSeq(segs, i, Len(segs)))
+\* nesting deepened: the type at segment i is wrapped n times in a composite type whose encoding up to the element type is
+\* `pat` (list / set: the 2-byte id; tuple of one: id + count 1; map<int, .>: id + int id; UDT of one field) — frame length recomputed
+DeepPats == {<<0, 32>>, <<0, 34>>, <<0, 49, 0, 1>>, <<0, 33, 0, 9>>, <<0, 48, 0, 1, 107, 0, 1, 117, 0, 1, 0, 1, 102>>}
+Deepen(segs, i, n, pat) == Reframe(SubSeq(segs, 1, i - 1) \o Seg("raw", 0, [j \in 1..(Len(pat) * n) |-> pat[((j - 1) % Len(pat)) + 1]]) \o SubSeq(segs, i, Len(segs)))
 =============================================================================
